@@ -23,12 +23,13 @@ FacetValues == [
     ctattr |-> {"ok", "mismatch"},                   \* content-type attribute vs eContentType
     \* ROA: a prefix disjoint from the EE resources / less specific than a resource block / straddling the end of a range /
     \*      of a family the certificate has no resources for; ASPA: customer outside, inherited, IP resources present
-    cover  |-> {"ok", "outside", "wider", "straddle", "nores", "inherit", "hasip4", "hasip6"},
+    \*      ("ipinherit": the IP extension is present as inherit under an issuer that holds no addresses - still IP resources)
+    cover  |-> {"ok", "outside", "wider", "straddle", "nores", "inherit", "hasip4", "hasip6", "ipinherit"},
     crl    |-> {"ok", "revoked"} ]
 Facets == DOMAIN FacetValues
 \* which coverage deviations exist for which kind of object
 CoverFor(k) == CASE k = "roa"  -> {"ok", "outside", "wider", "straddle", "nores"}
-                 [] k = "aspa" -> {"ok", "outside", "inherit", "hasip4", "hasip6"}
+                 [] k = "aspa" -> {"ok", "outside", "inherit", "hasip4", "hasip6", "ipinherit"}
                  [] OTHER -> {"ok"}
 Conforming == [f \in Facets |-> "ok"]
 \* ---- the statement
